@@ -232,12 +232,12 @@ def short_s5(b):
     return f"socks5/ann={b.get('ann', 'both')}/unit={b.get('unit')}/size={b.get('size')}/n={b['n']}:" + (f"{f[0]['k']}(unit {f[0]['u']})" if f else "clean")
 
 
-def klass(b, lines):
+def klass(b, lines, prop=""):
     """Class of an execution for the violation signature: the faults that were *applied* (logged)."""
     ks = [ln["k"] for ln in lines if ln["e"] == "Fault"]
     inj = [ln["w"] + "/" + ln.get("t", "data") for ln in lines if ln["e"] == "Inject"]
     c = "+".join(ks) if ks else "clean"
-    if inj and not ks:
+    if inj and (not ks or prop == "ForeignInert"):
         c += "+inject(" + ",".join(inj) + ")"
     return c + (":blocks>65536" if b["n"] > 65536 else "") + (":ann=" + b["ann"] if b.get("ann", "both") != "both" else "")
 
@@ -320,7 +320,7 @@ def run(chk, replay=None):
             tour, st4 = vf.tlc_gen("IbbGen.tla", "IbbGenTour2.cfg")
             st4["sampled"] = min(len(tour), 2500)
             tour = rnd.sample(tour, st4["sampled"])
-            sim, st5 = vf.tlc_simulate("IbbGen.tla", "IbbGenTour2.cfg", num=1500, depth=40, seed=chk.seed)
+            sim, st5 = vf.tlc_simulate("IbbGen.tla", "IbbGenTour2.cfg", num=800, depth=40, seed=chk.seed)
             extra = vf.maximal_behaviours(tour + sim)
             chk.cov["generation"].update({"tour_two_faults": st4, "simulate_two_faults": st5})
         execs = concretise(vf.maximal_behaviours(one + inj + mix), rnd, 0.5 if quick else 1.0) + concretise(extra, rnd, 1.0)
@@ -415,7 +415,7 @@ def run(chk, replay=None):
     for case in sorted(by_case, key=lambda c: (len(cases.get(c, [])), int(c[1:]))):
         b = execs[int(case[1:]) - 1]
         for v in sorted(by_case[case], key=lambda v: v["prop"]):
-            sig = "C19:" + v["prop"] + ":" + klass(b, cases[case])
+            sig = "C19:" + v["prop"] + ":" + klass(b, cases[case], v["prop"])
             if sig in reported or len(reported) >= 6:
                 continue
             reported.add(sig)
